@@ -113,8 +113,8 @@ func translate(c *decl.Corpus, dir, coqOut, metaOut string) {
 			}
 			gen := filepath.Join(dir, sc.Pkg, base+"_"+strings.ToLower(s.Name)+"_validator.go")
 			m := structMeta{Key: sc.ID + "/" + s.Name, Pkg: sc.Pkg, Type: s.Name, File: gen, Index: idx}
-			fmt.Fprintf(&sb, "(* %s *)\nDefinition tab_%d : numtab := %s.\n", m.Key, idx, s.CoqNumTab(sc.Grouped))
-			fmt.Fprintf(&sb, "Definition d_%d : sdecl := %s.\n", idx, s.CoqDecl(sc.Grouped))
+			fmt.Fprintf(&sb, "(* %s *)\nDefinition tab_%d : numtab := %s.\n", m.Key, idx, s.CoqNumTab(sc.Grouped, sc.GroupDoc))
+			fmt.Fprintf(&sb, "Definition d_%d : sdecl := %s.\n", idx, s.CoqDecl(sc.Grouped, sc.GroupDoc))
 			content, err := os.ReadFile(gen)
 			if err != nil {
 				fmt.Fprintf(&sb, "Definition p_%d : option file := None.\n", idx)
